@@ -254,8 +254,9 @@ func c15Gen(seed int, illegal int) *c15Graph {
 	default:
 		g.overlap = "none"
 	}
-	// break it in exactly one way
-	lib := g.mods[1]
+	// break it in exactly one way; the offended module is any library module, so that it may
+	// already have been reached through another module when the illegal import is analysed
+	lib := g.mods[1+r.Intn(nlib)]
 	switch illegal {
 	case 1: // import a private function
 		p := c15Fn{name: "priv", pub: false}
